@@ -98,6 +98,7 @@ def recordByName : String → Option Con
   | "platform_position" => some Gen.platformPositionRecord
   | "map_projection" => some Gen.mapProjectionRecord
   | "attitude" => some Gen.attitudeRecord
+  | "leader" => some Gen.sarLeaderRecord
   | "lines10" => some Gen.signalDataRecord
   | "lines11" => some Gen.processedDataRecord
   | _ => none
@@ -255,6 +256,10 @@ def step (j : Json) : Json :=
       match parse c [] (unhex (getStr j "data")) 0 with
       | .ok (v, pos) => Json.mkObj [("ok", valJson v), ("pos", toJson pos)]
       | .error e => Json.mkObj [("err", Json.str e.name)]
+  | "trailer" =>
+    match readTrailer (unhex (getStr j "file")) with
+    | .ok imgs => Json.mkObj [("ok", Json.arr (imgs.map (fun im => Json.arr (im.map (fun row => Json.arr (row.map (fun x => Json.str (toString x))).toArray)).toArray)).toArray)]
+    | .error e => Json.mkObj [("err", Json.str e.name)]
   | "transform" =>
     let what := getStr j "what"
     match recordByName what with
@@ -281,6 +286,7 @@ def step (j : Json) : Json :=
         | "platform_position" => optG (transformPlatformPosition realLeafFns2 pv)
         | "map_projection" => optG (transformMapProjection realLeafFns2 pv)
         | "attitude" => optG (transformAttitude realLeafFns2 pv)
+        | "leader" => optG (transformLeaderMetadata realLeafFns3 pv)
         | _ => match pv with
           | .list recs => Json.mkObj [("ok", grpJson (transformLineMetadata recs))]
           | _ => Json.mkObj [("bad", Json.null)]
